@@ -182,10 +182,17 @@ func giantInput(name string) string {
 	case "huge-level-number":
 		return "0 NOTE v\n99999999999999999999999 NOTE v\n"
 	}
+	if strings.HasPrefix(name, "level=") {
+		// a level number at a machine-integer boundary, as first line, after a root and after a child
+		lv := strings.TrimPrefix(name, "level=")
+		return lv + " NOTE a\n0 NOTE v\n" + lv + " NOTE b\n1 NOTE c\n" + lv + " NOTE d\n"
+	}
 	panic("unknown giant " + name)
 }
 
-var giants = []string{"line-1MB", "line-1MB-unparsable", "nesting-1e5", "overdeep-1e5", "roots-1e5", "huge-level-number"}
+var giants = []string{"line-1MB", "line-1MB-unparsable", "nesting-1e5", "overdeep-1e5", "roots-1e5", "huge-level-number",
+	"level=255", "level=256", "level=32767", "level=32768", "level=65535", "level=65536", "level=2147483647", "level=2147483648", "level=4294967295", "level=4294967296",
+	"level=9223372036854775807", "level=9223372036854775808", "level=18446744073709551615", "level=18446744073709551616", "level=00000000000000000000001", "level=0000000000000000000000"}
 
 func run(tier, unit string, r *vlib.Rec) {
 	name, lo, hi := vlib.ParseChunk(unit)
@@ -321,7 +328,7 @@ func main() {
 		ID:    "C03",
 		Level: "exploration",
 		Rule: "inputs: (a) every sequence of <=n lines over the structure-adversarial alphabet {HUSB,WIFE,CHIL,FAM,INDI,NAME,DATE} x level 0..3, the short ones also with one line deviating (empty value, xref added/removed, value on a record line); " +
-			"(b) C02's level walks with <=1 deviating line; (c) every byte string of length <=L over {0,1,space,@,A,LF,CR,0xFF} with/without BOM; (d) six parametric giants; each x 4 option combinations. " +
+			"(b) C02's level walks with <=1 deviating line; (c) every byte string of length <=L over {0,1,space,@,A,LF,CR,0xFF} with/without BOM; (d) six parametric giants and level numbers at every machine-integer boundary (2^8..2^64, zero-padded); each x 4 option combinations. " +
 			"Non-trivial = not (a rejected input of fewer than two lines); distinct by (options, bytes).",
 		Assumptions: []string{
 			"the documented panic is accepted only when its text is 'indent is too large', AllowInvalidIndents is off and the reference decoder agrees that the line is over-deep",
